@@ -1099,6 +1099,9 @@ func runSdf(c SdfCase) *pbt.Violation {
 	if v != nil {
 		return v
 	}
+	if v := checkLazyDivider(in, w, wo, uint32(len(in))*7919, desc); v != nil {
+		return v
+	}
 	switch c.Prefix {
 	case 0:
 		// adding: one "@setDataFrame" string, then the input unchanged
